@@ -50,6 +50,8 @@ inductive A
   | addrs (n : Nat)   -- getaddrinfo succeeded with n usable addresses
   | afFail            -- udp sockAf(): getsockname failed / unknown family (only ever logged on failure: peeked)
   | noMatch           -- udp viaDo: no resolved address of the listener's family (peeked)
+  | keyFail           -- udp viaDo: key(to) failed (getnameinfo error), the peer key is empty (only ever logged on failure: peeked) - FC06a
+  | dgramNoKey        -- udp readFromListener: recvfrom returned a datagram whose source address key(from) cannot format - FC06a
   deriving DecidableEq, Repr
 
 /-- Every call site that can produce a close notification (one constructor per `closeNow(`/`closeCb(` call site of
@@ -72,7 +74,7 @@ inductive Site
   -- tcp doSend
   | dsHook | dsTlsErr | dsSendErr | backpressure
   -- udp connectDo / viaDo (not inserted yet)
-  | uResolveFail | uNoSocket | vNoListener | vAfUnknown | vResolveFail | vAfMismatch | vCap
+  | uResolveFail | uNoSocket | vNoListener | vAfUnknown | vResolveFail | vAfMismatch | vKeyFail | vCap
   -- udp onClient / writeClient / sendDo
   | ucRecvErr | ucWriteErr | usBackpressure | usSendErr | usListenerGone | usLstBackpressure | usPeerSendErr
   deriving DecidableEq, Repr
